@@ -412,7 +412,7 @@ func VerifH_c04_hrandfield_extreme() {
 	vCmd(cs, "HSET", "h", "f0", "v")
 	s := vDecimal("count")
 	count := vDecimalOf(s)
-	vAssume(count > 4294967296 || count < -4611686018427387903)
+	vAssume(count > 4294967296 || count == -9223372036854775808)
 	var r respValue
 	panicked, msg := vCatch(func() { r = vCmd(cs, "HRANDFIELD", "h", s) })
 	vAssert("hrandfield-extreme-no-panic", !panicked)
@@ -420,7 +420,7 @@ func VerifH_c04_hrandfield_extreme() {
 		vNote(msg)
 		return
 	}
-	if count > 4611686018427387903 || count < -4611686018427387903 {
+	if count < 0 {
 		vAssert("hrandfield-out-of-range-error", vIsErr(r))
 	} else {
 		a, ok := vArrayOf(r)
